@@ -9772,6 +9772,16 @@ def _write_node(node, xml_tree=None, viewport_transform=None):
     elif isinstance(node, Use):
         # While Use elements are originally their own thing it can't be restored.
         xml_tree = subxml(xml_tree, SVG_TAG_GROUP)
+        # The instantiated children already carry the use's x, y and transform: the group must not repeat them.
+        for key in (
+            SVG_ATTR_X,
+            SVG_ATTR_Y,
+            SVG_ATTR_WIDTH,
+            SVG_ATTR_HEIGHT,
+            SVG_HREF,
+            XLINK_HREF,
+        ):
+            xml_tree.attrib.pop(key, None)
         for child in node:
             _write_node(child, xml_tree, viewport_transform)
     elif isinstance(node, Group):
@@ -9786,7 +9796,7 @@ def _write_node(node, xml_tree=None, viewport_transform=None):
             # Cannot write generic svgelement form
             return
     # Write Transform
-    if hasattr(node, "transform") and not isinstance(node, Group):
+    if hasattr(node, "transform") and not isinstance(node, (Group, Use)):
         t = node.transform
         if viewport_transform:
             t = t * viewport_transform
